@@ -218,8 +218,9 @@ CLAIMED = {
     "C17": (
         "Lean 4 theorems over a hand-written model of _readline_socket/_readline_buf (induction over the event script "
         "and over the number of calls) + differential correspondence against the real Device on scripted sockets",
-        "Proof: byte conservation, one-line results and buffer invariant are Lean theorems for every script of socket "
-        "events and every number of readline() calls; the model is tied to the source by running both on thousands of "
+        "Proof: C17_refines_split - for every script of socket events ending with the peer closing, any fragmentation and "
+        "any placement of time-outs, the lines returned are exactly the stream cut after each newline; byte conservation, "
+        "one-line results and the buffer invariant for every script and every number of readline() calls; the model is tied to the source by running both on thousands of "
         "random streams x fragmentations x time-out placements per run (exhaustive small scope in the thorough tier).",
         "Trusted: Lean kernel (axioms propext, Quot.sound), Lean compiler for the driver binary, the hand-written model "
         "(tied by correspondence only), the Python harness scripting `_socketfile`/`_selector`; the OS socket layer is not modelled.",
